@@ -36,9 +36,9 @@ static double row_tol(double n) {
 }  // narr-rows: |area - oracle| / sum|edge integrals|   (observed worst 2.0e-14, thorough rows)
 static const double TOL_ORACLE    = 2.0e-14;  // narr-rows: oracle self-check |Simpson(N) - Simpson(N/2)| / sum|edge integrals| / 15
 static const double TOL_INS_ABS   = 2.0e-3;    // vertex-insertion: m^2 x (a/aWGS84)^2, plus K_INS eps sum|S12|
-static const double K_INS         = 64;       // (observed worst err/tol 0.21)
-static const double TOL_INSP_ABS  = 16.0e-9;  // vertex-insertion perimeter: m, plus K_INS eps sum s12   (observed worst err/tol 0.23)
-static const double TOL_S12_REL   = 1.0e-8;   // short-edge-S12 relative (observed worst 1.6e-9: the 3-point reference itself)
+static const double K_INS         = 64;       // (observed worst err/tol 0.24)
+static const double TOL_INSP_ABS  = 16.0e-9;  // vertex-insertion perimeter: m, plus K_INS eps sum s12   (observed worst err/tol 0.25)
+static const double TOL_S12_REL   = 2.5e-8;   // short-edge-S12 relative (observed worst 5.6e-9: cancellation eps*lat/dlat in a 0.1 m edge)
 static const double TOL_S12_ABS   = 4.0e-4;   // short-edge-S12 absolute floor, m^2 (observed worst err/tol 0.25)
 
 // closed-form area between the equator and latitude phi per radian of longitude
